@@ -101,7 +101,7 @@ func init() {
 			return runHistory(sc, sharedHistoryOracle, keepLog, false)
 		},
 		QuickRuns: 10000, ThoroughS: 900,
-		Rule: "one run = 1..3 validators built once without recycling (schema / parameter / header) used for a sequence of 2..30 values with repeats, every call under its own map-iteration order, " +
+		Rule: "one run = 1..3 validators built once without recycling (schema / parameter / header) used for a sequence of 2..30 (4% of the runs: 80..300) values with repeats, some of them bulky (arrays of 70..140 elements), every call under its own map-iteration order, " +
 			"optionally with other (recycling) validations in between; each call is compared with a freshly built validator on that value (same order: full outcome incl. match count and schemata digest; another order: verdict and message sets). " +
 			"non-trivial = some pooled object travelled between calls; distinct = distinct (operation-kind sequence, recycling edges)",
 		Real: commonReal, Stub: commonStub,
